@@ -47,7 +47,7 @@ func c08Scenarios(cfg runCfg) []Scenario {
 
 // genMachine builds one Repeat step with 1..6 actions.
 func genMachine(r *rng, failDen int) Step {
-	st := Step{Op: "repeat"}
+	st := Step{Op: "repeat", Shared: r.chance(1, 3)}
 	na := r.between(1, 6)
 	for i := 0; i < na; i++ {
 		a := Action{Name: fmt.Sprintf("A%d", i)}
